@@ -245,7 +245,15 @@ impl Property for C13 {
                         ("zq_limit =", "malformed-directive:missing-operand*"),
                         ("#d8 1 +", "malformed-directive:missing-operand*"),
                     ];
-                    let (txt, k): (&str, &'static str) = if crate::engine::gen_version() >= 2 && t.chance(1, 3) { *t.pick(v2_extra) } else { *t.pick(&[
+                    // v3: a required token is missing and a block comment that runs over a line break follows: the error
+                    // belongs to the line of the directive, not to the line where the comment ends
+                    let v3_extra: &[(&str, &'static str)] = &[
+                        ("#fn ;* zq\n   zq *; (x) => x", "malformed-directive:missing-token-before-multiline-comment"),
+                        ("#bankdef ;* zq\n   zq \u{e9} *;\n{\n}", "malformed-directive:missing-token-before-multiline-comment"),
+                        ("#ruledef zqr ;* zq\n zq *; x", "malformed-directive:missing-token-before-multiline-comment"),
+                        ("#include ;* zq\n zq *;", "malformed-directive:missing-token-before-multiline-comment"),
+                    ];
+                    let (txt, k): (&str, &'static str) = if crate::engine::gen_version() >= 3 && t.chance(1, 6) { *t.pick(v3_extra) } else if crate::engine::gen_version() >= 2 && t.chance(1, 3) { *t.pick(v2_extra) } else { *t.pick(&[
                         ("#d8 ,", "malformed-directive:stray-comma"),
                         ("#align", "malformed-directive:missing-operand"),
                         ("#nosuchdirective 1", "malformed-directive:unknown-name"),
